@@ -191,12 +191,12 @@ def _num(h):
 
 def proj_dump(x):
     """the part of the public-API dump the pass-engine model also yields: glyph ids, association, attachment parent / first
-    child / next sibling (incl. the base chain of linkClusters), origin and advance in design units (the dump was made without a font), and the segment advance"""
+    child / next sibling (incl. the base chain of linkClusters), origin and advance in design units (the dump was made without a font), the slot index, and the segment advance"""
     d = segspec.parse_dump(x)
     if d is None:
         return x.split()[0] if x else "empty"
     return ("n=%d walk=%d adv=%s,%s " % (d["n"], d["walk"], _num(d["adv"][0]), _num(d["adv"][1]))
-            + " ".join("s:%d,%d,%d,%d,%d,%d,%d,%s,%s,%s" % (s["gid"], s["before"], s["after"], s["original"], s["parent"], s["child"], s["sibling"], _num(s["ox"]), _num(s["oy"]), _num(s["ax"]))
+            + " ".join("s:%d,%d,%d,%d,%d,%d,%d,%s,%s,%s,%d" % (s["gid"], s["before"], s["after"], s["original"], s["parent"], s["child"], s["sibling"], _num(s["ox"]), _num(s["oy"]), _num(s["ax"]), s["index"])
                        for s in d["slots"])).strip()
 
 
@@ -247,8 +247,10 @@ def shape_stage(ctx, res, nfonts, ntexts, as_failure=False, gen_kw=None, fontgen
                                              "font_hex": open(fonts[int(l.split("=")[1].split(",")[0])], "rb").read().hex(), "api_line": l})
             if m is None:
                 continue
-            mm = re.match(r"trie=(\S*) (loop=\S+ passes=\S+ exceeded=\S+ )?(.*)", m)
-            tb, mloop, mbody = (mm.group(1), (mm.group(2) or "").strip(), mm.group(3).strip()) if mm else ("?", "", m)
+            mm = re.match(r"trie=(\S*) (loop=\S+ passes=\S+ exceeded=\S+ )?(noid=\S+ )?(.*)", m)
+            tb, mloop, mbody = (mm.group(1), (mm.group(2) or "").strip(), mm.group(4).strip()) if mm else ("?", "", m)
+            if mm and mm.group(3):
+                res.count("shape:positioning-passes-neither-insert-nor-delete=" + mm.group(3).strip()[5:])
             if "exceeded=1" in iloop:
                 res.failures.append({"harness": "h_seg", "mode": "shape", "line": ml, "impl": iloop, "model": mloop, "exe_args": [], "tag": "loop-bound",
                                      "font_hex": open(fonts[int(l.split("=")[1].split(",")[0])], "rb").read().hex(), "api_line": l,
@@ -286,10 +288,10 @@ def replay_shape(obj):
         iloop, _, ibody = raw.partition(" | ") if raw.startswith("loop=") else ("", "", raw)
         out = proj_dump(ibody)
         m = lib.run_lines([lib.driver_path(), "shape"], [obj["line"]])[0]
-        mm = re.match(r"trie=(\S*) (loop=\S+ passes=\S+ exceeded=\S+ )?(.*)", m)
+        mm = re.match(r"trie=(\S*) (loop=\S+ passes=\S+ exceeded=\S+ )?(noid=\S+ )?(.*)", m)
         if mm:
             print("loop  : impl %s | model %s" % (iloop, (mm.group(2) or "").strip()))
-            m = mm.group(3).strip()
+            m = mm.group(4).strip()
             if out != "noseg" and (mm.group(2) or "").strip() and iloop != (mm.group(2) or "").strip():
                 out, m = iloop + " " + out, (mm.group(2) or "").strip() + " " + m
         print("model line: %s\nimpl : %s\nmodel: %s\nsame: %s" % (obj["line"][:400], out[:500], m[:500], out == m))
